@@ -1,21 +1,50 @@
 CONFIG = {
     "id": "C02",
     "coq_targets": ["Gen/FormulasTurn.v", "Proofs/FormulasTurnProofs.v",
-                    "Props/C02.v", "Model/TurnCheck.v"],
+                    "Model/TurnRe.v", "Proofs/TurnReProofs.v",
+                    "Props/C02.v", "Model/TurnCheck.v", "Model/TurnReCheck.v"],
     "prop_files": ["Props/C02.v"],
     "gen": ["FormulasTurn"],
     "components": [{
         "name": "turn", "modules": ["Base.NumOps", "Model.Turn", "Model.TurnCheck"],
         "check": "check_case", "monitor": "monitor_case", "model_out": "model_out",
         "case_type": "case", "ops_path": [],
-        "n_quick": 900, "n_thorough": 30000, "shard": 300,
+        "n_quick": 600, "n_thorough": 30000, "shard": 150,
+    }, {
+        "name": "turnre", "modules": ["Base.NumOps", "Model.Turn", "Model.TurnRe", "Model.TurnCheck", "Model.TurnReCheck"],
+        "check": "check_case", "monitor": "monitor_case", "model_out": "model_out",
+        "case_type": "case",
+        "ops_path": [1],            # (listener slots, ops)
+        "n_quick": 400, "n_thorough": 30000, "shard": 100,
     }],
     "rule": "histories of 5-60 turn-manager operations (add/remove units, start turn, end of action, set/advance/"
             "delay gauge by gauge, by normalized amount and by AV, set/modify gauge cost incl. fractional and "
             "negative, speed changes between operations) over 2-10 units with speeds from a pool containing equal "
             "speeds; amounts half from boundary values (0, exactly base gauge, negative, fractional, larger than the "
             "remaining gauge); also protocol violations (double start, reset without a turn, absent ids); "
-            "distinct = distinct input term",
+            "distinct = distinct input term.  Component turnre - histories WITH RE-ENTRANT LISTENERS on the real "
+            "turn.Manager (real event.System, fake attribute.Getter): the input is 5-31 top-level operations plus, per "
+            "event the manager emits (TurnTargetsAdded, TurnReset, GaugeChange, CurrentGaugeCostChange), a queue of "
+            "listener scripts; the harness subscribes ONE listener per event that pops the next script and executes its "
+            "operations (SetGauge, ModifyGaugeNormalized, ModifyGaugeAV, SetCurrentGaugeCost, ModifyCurrentGaugeCost, "
+            "RemoveTarget, speed change of the getter; never StartTurn / ResetTurn / AddTargets, which belong to the run "
+            "loop) ON THE SAME MANAGER while the emitting call is still running; scripts are generated while the "
+            "history runs on a manager of the generator's own, so each is aimed at the delivery that pops it: 0-3 "
+            "operations (empty 40% of the time), nested at most 3 deep, 4-26 nested operations per history; 40% touch "
+            "the SAME unit the outer call is working on (a gauge change inside its own GaugeChange, the unit just "
+            "reset, a unit just added), 10% remove the unit the outer call has just reported, 10% change its speed "
+            "(stored order goes stale), 15% set ANOTHER unit to the gauge at which it ties exactly with that unit, "
+            "half of the cost listeners set the cost again; a third of the histories use the tie pools, a tenth 13-18 "
+            "units at tied speeds, an eighth have no scripts; three quarters end with SetCurrentGaugeCost / ResetTurn "
+            "/ StartTurn so that the hidden fields (cost, active flag, acting unit) become visible.  Recorded and "
+            "compared bit-exactly, in time order, nested calls included: every call entered (with its arguments), "
+            "every listener invocation (all event fields incl. the turn order with AV bits; a payload that changes "
+            "while the listener runs is recorded as a second delivery), every return (error / StartTurn's results) "
+            "with ids and gauges of EventTurnStatus() and TotalAV() right after it.  The monitor reads the trace with "
+            "a stack of open calls and demands per call, outer or nested, the property's clauses against what was "
+            "observed last (old gauge = gauge seen last, only that unit differs, never negative, reset gauge = max 0 "
+            "trunc(10000 x cost seen last), elapsed AV >= 0 added to the clock, no gauge grows at a turn start) and "
+            "that a call writes nothing after its emission",
     "trusted": [
         "TRANSLATED from the Go source on every run and proved equal to the model for every number system and "
         "every argument (Gen/FormulasTurn.v; Proofs/FormulasTurnProofs.v; theorems "
@@ -23,6 +52,21 @@ CONFIG = {
         "manager.av, StartTurn's per-unit gauge decrement (int64(av * SPD)), clock update, cost reset and the "
         "acting unit's zero gauge, ResetTurn's gauge (int64(BaseGauge * cost) floored at 0), SetGauge's truncated "
         "floored gauge, the amounts of ModifyGaugeNormalized / ModifyGaugeAV / ModifyCurrentGaugeCost",
+        "RE-ENTRANT LISTENERS (Model/TurnRe.v, hand-written, correspondence only): where each Emit sits relative to "
+        "the stores of AddTargets / ResetTurn / SetGauge / SetCurrentGaugeCost was read off the Go source (every "
+        "function emits at most once, as its LAST statement, after everything is stored; the event's fields incl. a "
+        "fresh EventTurnStatus() slice are evaluated before the listeners run; StartTurn and RemoveTarget emit "
+        "nothing) and is NOT translated: a source edit that moves a store behind an Emit, re-stores a local after "
+        "it, reuses a status buffer across calls or clears activeTurn after the TurnReset emission is seen by the "
+        "correspondence on generated re-entrant histories (four such mutants were tried: all missed by the flat "
+        "component, all caught by turnre), not by a proof obligation; listener behaviour is data (a queue of scripts "
+        "per event, an exhausted queue = a listener that does nothing); one listener per event; a listener that "
+        "calls StartTurn / ResetTurn / AddTargets is illegal use (distinct model outcome, never generated); "
+        "listeners of other components and listeners that panic are outside the model; gaugeCost, activeTurn and "
+        "activeTarget are not readable from outside and are observed through the events and returns that follow",
+        "known imprecision of the flat model kept as it is: SetCurrentGaugeCost(-0) on cost +0 (or +0 on -0) emits "
+        "nothing but the Go field takes the new sign, the model keeps the old one; never generated, no clause of the "
+        "property depends on it",
         "still HAND-WRITTEN (correspondence only): the re-insertion position of SetGauge, move-to-end of "
         "ResetTurn, AddTargets / RemoveTarget, the error paths, the emitted status lists; Stats(id).SPD() is the "
         "model's speed table",
@@ -40,12 +84,22 @@ CONFIG = {
                 "arithmetic clauses (gauges never negative after a turn start, elapsed AV >= 0, proportional shrink) are proved "
                 "for the model instantiated at the real numbers; the binary64 instance is executed and compared bit-exactly with "
                 "the Go code and the float-level monitor checks the same clauses on every implementation output"],
-    "assumptions": ["speeds are positive and finite; unit ids are unique in the turn order"],
+    "assumptions": ["speeds are positive and finite; unit ids are unique in the turn order",
+                    "re-entrant theorems: the run is Done (out of fuel is proved unreachable for fuel above the number "
+                    "of script operations, Illegal for scripts free of StartTurn / ResetTurn / AddTargets); legality "
+                    "(positive speeds, new ids) is required of every call in the order in which the calls are entered "
+                    "and is proved for every history that starts with one AddTargets and otherwise adds nothing"],
     "manifest": {
         "level_text": "Translator tie (way 1): BaseGauge, the action value and its comparison, and the gauge / clock / cost arithmetic of the turn manager are regenerated from turn/turn.go and turn/modify.go on every run (go2coq FormulasTurn) and proved EQUAL to the model's definitions for all inputs; "
                       "Kernel-checked theorems over an executable Gallina model of the turn manager (all histories of "
                       "operations and speed changes), binary64 instance compared bit-exactly with the real turn.Manager on "
-                      "generated histories; a float-level monitor re-checks the property's clauses on the implementation's outputs.",
+                      "generated histories; a float-level monitor re-checks the property's clauses on the implementation's outputs.  "
+                      "RE-ENTRANT LISTENERS: listener scripts are data attached to the four events of the manager (Model/TurnRe.v); "
+                      "for every top-level history, every listener table and every fuel the trace is proved to be explained by flat "
+                      "atomic steps, so every clause holds for every call, outer or nested at any depth, in the state where it is "
+                      "entered (C02_reentrant, C02_reentrant_every_call_meets_spec); the whole-call readings of 'changes that unit "
+                      "only' are refuted by witnesses and their partial forms proved; the harness' listeners call the real manager "
+                      "again from inside the emission.",
         "level_note": "go2coq FormulasTurn translator + kernel-checked equalities generated = model; "
                       "Coq kernel + stdlib real-number axioms for the R instance; sort.Stable contract; IEEE rounding gap between "
                       "the float and real instances is named in the evidence.",
